@@ -206,7 +206,12 @@ class BaseSession(SessionInterface, Generic[MessageT]):
     async def check_mailbox(self, selected: SelectedMailbox, *,
                             wait_on: Event | None = None,
                             housekeeping: bool = False) -> SelectedMailbox:
-        mbx = await self._get_selected(selected)
+        try:
+            mbx = await self._get_selected(selected)
+        except MailboxNotFound:
+            # deleted by somebody else, which ends this selection
+            selected.set_deleted()
+            return selected
         if housekeeping:
             await shield(mbx.cleanup())
         return await mbx.update_selected(selected, wait_on=wait_on)
